@@ -241,8 +241,20 @@ func (ig *incGen) file(depth int, cmdSafe, allowAffix bool, feats map[string]boo
 	if depth > 0 && core.Chance(r, 1, 3) {
 		feats[fmt.Sprintf("inc-nested%d", depth)] = true
 		sub := ig.file(depth-1, cmdSafe, allowAffix, feats)
-		sb.WriteString(ind() + "##!> include " + sub + core.Pick(r, "", ".ra") + "\n")
+		if !cmdSafe && core.Chance(r, 1, 3) {
+			// the nested include stands inside a block of the include file
+			feats["inc-nested-inside-block"] = true
+			sb.WriteString(ind() + "##!> assemble\n" + ind() + "  blockhead\n" + ind() + "  ##!> include " + sub + "\n" + ind() + "  ##!=>\n" + ind() + "  blocktail\n" + ind() + "##!<\n")
+		} else {
+			sb.WriteString(ind() + "##!> include " + sub + core.Pick(r, "", ".ra") + "\n")
+		}
 		sb.WriteString(ind() + ig.g.WordList(1)[0] + "\n")
+	}
+	if !cmdSafe && core.Chance(r, 1, 6) {
+		// a stored expression made and appended inside the include file
+		feats["inc-stored-expression"] = true
+		st := fmt.Sprintf("incst%d", ig.n)
+		sb.WriteString(ind() + "##!> assemble\n" + ind() + "  stored-a\n" + ind() + "  stored-b\n" + ind() + "  ##!=< " + st + "\n" + ind() + "##!<\n" + ind() + "##!> assemble\n" + ind() + "  pre\n" + ind() + "  ##!=>\n" + ind() + "  ##!=> " + st + "\n" + ind() + "##!<\n")
 	}
 	text := sb.String()
 	if core.Chance(r, 1, 4) {
@@ -623,7 +635,16 @@ func c07Gen(rng *rand.Rand) *metaCase {
 			feats["reference-in-block"] = true
 			body = append(body, "##!> assemble", "  "+ref()+w, "  ##!=>", "  "+w+"2", "##!<")
 		case 3:
-			body = append(body, ref())
+			if nd > 0 && core.Chance(rng, 1, 3) {
+				// a command word that comes from a definition, inside a cmdline block
+				feats["reference-in-cmdline-block"] = true
+				names = append(names, fmt.Sprintf("cmdword%d", len(names)))
+				vals = append(vals, core.Pick(rng, "wget", "curl", "nc"))
+				nd++
+				body = append(body, "##!> cmdline "+core.Pick(rng, "unix", "windows"), "  {{"+names[nd-1]+"}}"+core.Pick(rng, "", "@", "~"), "  ls", "##!<")
+			} else {
+				body = append(body, ref())
+			}
 		case 4:
 			// a reference directly behind an opening brace: a{<ref>} and an escaped brace in front of a reference
 			feats["reference-behind-brace"] = true
